@@ -266,3 +266,62 @@ Theorem C13_position_exec : forall tpb evs cum0 grouped ms,
                2 * Z.abs (m_time (snd tm) * tpb - cum * PPQN) <= tpb) ks ms.
 Proof. exact C13_proofs.C13_position_exec. Qed.
 Print Assumptions C13_position_exec.
+
+(* ---------------------------------------------------------------- sounding set of a loaded group *)
+From Proofs Require Import C04_sort C07_proofs C15_proofs Sound_glue C15_sound C13_union.
+(* Definitions: C15_proofs.sounding k t l := more note-ons than note-offs of key k = (channel, pitch) with time <= t in
+   the absolute list l;  nnt / sbal / swf / tsorted as in Props/C15.v (Proofs/Sound_glue.v): non-negative ticks;
+   no zero-length note, no orphan note-off, no unclosed note;  strictly alternating per key;  time-sorted. *)
+
+(* the per-group merge (normalise every track list, merge, normalise): the returned sequence sounds exactly where one
+   of the RAW track lists sounds; notes of one track may overlap each other, tracks may overlap each other *)
+Theorem C13_merge_group_sound : forall (a : list msg) (g : list (list msg)),
+  forallb tsorted (a :: g) = true -> forallb nnt (a :: g) = true -> forallb sbal (a :: g) = true ->
+  exists s s' v, merge_group (a :: g) = Ok s /\ get_abs s = Ok (s', v) /\
+    (forall k t, C15_proofs.sounding k t v = existsb (C15_proofs.sounding k t) (a :: g)) /\
+    tsorted v = true /\ nnt v = true /\ swf v = true /\ sbal v = true.
+Proof. exact C13_union.C13_merge_group_sound. Qed.
+Print Assumptions C13_merge_group_sound.
+
+(* clause "returns one sequence per requested track group whose sounding set is exactly the union of that group's
+   tracks" -- FULL (meta target included: the extra merge with the note-free meta list and the 4/4 insertion do not
+   touch the notes), under the hypotheses that after rounding the group's track lists and the meta list have
+   non-negative ticks and every track list is sbal.  own_msgs g p = the note / program-change messages of the track
+   located at position p of group g (C13_routing_state).  See C13_group_union_zero_length_refuted for sbal. *)
+Theorem C13_group_union : forall rnd tpb tracks groups metas mi seqs,
+  convert rnd tpb tracks groups metas mi = Ok seqs ->
+  let its := mapi (fun i t => (i, t)) tracks in
+  forall g grp, nth_error groups g = Some grp ->
+    forallb (fun p => nnt (own_msgs rnd tpb groups its g p) && sbal (own_msgs rnd tpb groups its g p))
+            (List.seq 0%nat (length grp)) = true ->
+    nnt (meta_msgs rnd tpb groups metas its) = true ->
+    exists s s' v, nth_error seqs g = Some s /\ get_abs s = Ok (s', v) /\
+      forall k t, C15_proofs.sounding k t v =
+                  existsb (fun p => C15_proofs.sounding k t (own_msgs rnd tpb groups its g p)) (List.seq 0%nat (length grp)).
+Proof. exact C13_union.C13_group_union. Qed.
+Print Assumptions C13_group_union.
+
+(* the same on the rows of the loader state (C13_routing_state / C13_group_union_partial) *)
+Theorem C13_group_union_rows : forall rnd tpb tracks groups metas mi seqs,
+  convert rnd tpb tracks groups metas mi = Ok seqs ->
+  exists st, conv_all rnd tpb tracks groups metas = Ok st /\
+    forall g row, nth_error (cs_seqs st) g = Some row ->
+      forallb nnt row = true -> forallb sbal row = true -> nnt (cs_meta st) = true ->
+      exists s s' v, nth_error seqs g = Some s /\ get_abs s = Ok (s', v) /\
+        (forall k t, C15_proofs.sounding k t v = existsb (C15_proofs.sounding k t) row) /\ nnt v = true.
+Proof. exact C13_union.C13_group_union_rows. Qed.
+Print Assumptions C13_group_union_rows.
+
+(* REFUTED without sbal (finding): at 480 ticks per beat the file ticks 470 and 489 both round to library tick 24, so
+   track 0 holds a zero-length note of (0,60); track 1 of the same group holds a real note of (0,60) from tick 24 to 48;
+   the returned sequence contains no note at all *)
+Theorem C13_group_union_zero_length_refuted : exists tracks groups seqs s s' v,
+  convert round_half_even 480 tracks groups [] 0 = Ok seqs /\
+  nth_error seqs 0 = Some s /\ get_abs s = Ok (s', v) /\
+  C15_proofs.sounding (0, 60) 30 (own_msgs round_half_even 480 groups (mapi (fun i t => (i, t)) tracks) 0 1) = true /\
+  C15_proofs.sounding (0, 60) 30 v = false.
+Proof.
+  destruct C13_union.C13_group_union_zero_length_refuted as (_ & _ & H3 & seqs & s & s' & v & H4 & H5 & H6 & _ & H8).
+  exists C13_union.z_tracks, [[0; 1]], seqs, s, s', v. auto.
+Qed.
+Print Assumptions C13_group_union_zero_length_refuted.
